@@ -331,10 +331,7 @@ def run(rep):
     phase['O3_s'] = round(time.time() - tph, 1)
     tph = time.time()
     # -- re-decide with two independent solver binaries
-    if tier == 'quick' and len(cross) > 60:
-        rnd2 = random.Random(rep.seed + 1)
-        cross = rnd2.sample(cross, 60)
-    rep.cross = driver.cross_check(cross, 300, 'QF_BV')
+    rep.cross = driver.cross_check(cross, 300, 'QF_BV', rep.tier, rep.seed)
     rep.extra['cross_checked_obligations'] = len(cross)
     phase['cross_s'] = round(time.time() - tph, 1)
     rep.extra['phase_s'] = phase
